@@ -1633,11 +1633,11 @@ func (m *metadataAPI) electNewPartitionLeader(ctx context.Context, partition *pa
 		return status.New(codes.FailedPrecondition, "No ISR candidates")
 	}
 	var (
-		candidates = make([]string, 0, len(isr)-1)
-		leader, _  = partition.GetLeader()
+		candidates          = make([]string, 0, len(isr)-1)
+		oldLeader, oldEpoch = partition.GetLeader()
 	)
 	for _, candidate := range isr {
-		if candidate == leader {
+		if candidate == oldLeader {
 			continue
 		}
 		candidates = append(candidates, candidate)
@@ -1648,7 +1648,7 @@ func (m *metadataAPI) electNewPartitionLeader(ctx context.Context, partition *pa
 	}
 
 	// Select a new leader.
-	leader = m.selectPartitionLeader(candidates)
+	leader := m.selectPartitionLeader(candidates)
 
 	// Replicate leader change through Raft.
 	op := &proto.RaftLog{
@@ -1660,8 +1660,25 @@ func (m *metadataAPI) electNewPartitionLeader(ctx context.Context, partition *pa
 		},
 	}
 
+	// The candidate was selected from what the partition looked like above.
+	// Make sure that is still the case when the operation is proposed, i.e. no
+	// leader or ISR change has been committed in the meantime.
+	checkPreconditions := func(op *proto.RaftLog) error {
+		if err := m.checkChangeLeaderPreconditions(op); err != nil {
+			return err
+		}
+		if err := m.checkLeaderGeneration(partition.Stream, partition.Id, oldLeader, oldEpoch); err != nil {
+			return err
+		}
+		current := m.GetPartition(partition.Stream, partition.Id)
+		if current == nil || !current.inISR(leader) {
+			return fmt.Errorf("Leader candidate %s is no longer in the ISR", leader)
+		}
+		return nil
+	}
+
 	// Wait on result of replication.
-	future, err := m.getRaft().applyOperation(ctx, op, m.checkChangeLeaderPreconditions)
+	future, err := m.getRaft().applyOperation(ctx, op, checkPreconditions)
 	if err != nil {
 		return status.Newf(codes.FailedPrecondition, "%s", err.Error())
 	}
@@ -2070,7 +2087,8 @@ func (m *metadataAPI) checkResumeStreamPreconditions(op *proto.RaftLog) error {
 // the partition doesn't exist, it returns ErrPartitionNotFound. Otherwise, it
 // returns nil.
 func (m *metadataAPI) checkShrinkISRPreconditions(op *proto.RaftLog) error {
-	return m.partitionExists(op.ShrinkISROp.Stream, op.ShrinkISROp.Partition)
+	return m.checkLeaderGeneration(op.ShrinkISROp.Stream, op.ShrinkISROp.Partition,
+		op.ShrinkISROp.Leader, op.ShrinkISROp.LeaderEpoch)
 }
 
 // checkExpandISRPreconditions checks if the partition whose ISR is being
@@ -2078,7 +2096,8 @@ func (m *metadataAPI) checkShrinkISRPreconditions(op *proto.RaftLog) error {
 // If the partition doesn't exist, it returns ErrPartitionNotFound. Otherwise,
 // it returns nil.
 func (m *metadataAPI) checkExpandISRPreconditions(op *proto.RaftLog) error {
-	return m.partitionExists(op.ExpandISROp.Stream, op.ExpandISROp.Partition)
+	return m.checkLeaderGeneration(op.ExpandISROp.Stream, op.ExpandISROp.Partition,
+		op.ExpandISROp.Leader, op.ExpandISROp.LeaderEpoch)
 }
 
 // checkChangeLeaderPreconditions checks if the partition whose leader is being
@@ -2149,6 +2168,26 @@ func (m *metadataAPI) checkLeaveConsumerGroupPreconditions(op *proto.RaftLog) er
 func (m *metadataAPI) checkChangeGroupCoordinatorPreconditions(op *proto.RaftLog) error {
 	if group := m.GetConsumerGroup(op.ChangeConsumerGroupCoordinatorOp.GroupId); group == nil {
 		return ErrConsumerGroupNotFound
+	}
+	return nil
+}
+
+// checkLeaderGeneration checks that the partition exists and that the given
+// leader and leader epoch are its current ones. Preconditions run while the
+// Raft lock is held and the FSM is up to date, so unlike the check made when a
+// request comes in, nothing can be committed between this check and the
+// operation itself.
+func (m *metadataAPI) checkLeaderGeneration(streamName string, partitionID int32, leader string, epoch uint64) error {
+	if err := m.partitionExists(streamName, partitionID); err != nil {
+		return err
+	}
+	partition := m.GetPartition(streamName, partitionID)
+	if partition == nil {
+		return ErrPartitionNotFound
+	}
+	if curLeader, curEpoch := partition.GetLeader(); leader != curLeader || epoch != curEpoch {
+		return fmt.Errorf("Leader generation mismatch, current leader: %s epoch: %d, got leader: %s epoch: %d",
+			curLeader, curEpoch, leader, epoch)
 	}
 	return nil
 }
